@@ -85,7 +85,7 @@ func runC20(e *Engine, r *Report) {
 		}
 	}
 	r.floor("MPT-validate-first-mutators", len(mutSites), 5)
-	ici := e.Func("tools.isCompleteSnapshotImage")
+	ici := r.helper("tools.isCompleteSnapshotImage")
 	var verdict Req
 	if ici != nil {
 		verdict = reqBool("the image check returned true", func(v ssa.Value) bool {
@@ -144,7 +144,16 @@ func runC20(e *Engine, r *Report) {
 		return okHelper
 	}
 	for _, v := range validators {
-		vf := r.need(v.fn)
+		var vf *ssa.Function
+		if v.fn == "tools.isCompleteSnapshotImage" {
+			vf = ici // optional wrapper around the checksum comparison
+			if vf == nil {
+				// inlined: the validation is the payload checksum computation itself
+				vf = r.need("internal/rsm.GetV2PayloadChecksum")
+			}
+		} else {
+			vf = r.need(v.fn)
+		}
 		if vf == nil {
 			continue
 		}
@@ -174,6 +183,27 @@ func runC20(e *Engine, r *Report) {
 			}
 		})
 		r.check(okc, "TBL-import-validators", "isCompleteSnapshotImage compares the file's payload checksum with the recorded checksum", e.pos(ici.Pos()), "checksum equality", "the image check no longer compares the payload checksum with the recorded one")
+	} else {
+		// the image check was inlined into ImportSnapshot: the same obligations
+		// on the raw comparison of the recorded checksum with the file's
+		ck := e.Field("raftpb", "Snapshot", "Checksum")
+		gpc := e.Func("internal/rsm.GetV2PayloadChecksum")
+		var eq VM = func(v ssa.Value) bool {
+			c, ok := v.(*ssa.Call)
+			if !ok {
+				return false
+			}
+			sc := c.Call.StaticCallee()
+			if sc == nil || sc.Name() != "Equal" || len(c.Call.Args) != 2 {
+				return false
+			}
+			a, b := c.Call.Args[0], c.Call.Args[1]
+			return (fieldV(ck)(a) && e.dependsOn(b, e.callV(gpc), 0)) || (fieldV(ck)(b) && e.dependsOn(a, e.callV(gpc), 0))
+		}
+		for _, ms := range mutSites {
+			r.guard("MPT-validate-first", calleeLabel(e, ms)+" only when the payload checksum equals the recorded one", ms.(ssa.Instruction),
+				reqBool("recorded checksum == checksum of the file", eq, true))
+		}
 	}
 	// validators consult what they are defined over
 	if cm := e.Func("tools.checkMembers"); cm != nil {
@@ -387,7 +417,7 @@ func runC20(e *Engine, r *Report) {
 		commits := e.MethodSitesIn(di, commitM)
 		r.check(len(commits) == 1, "MPT-import-batch", "db.importSnapshot commits exactly one batch", e.pos(di.Pos()), "one atomic batch", "the import no longer commits exactly one write batch")
 		for _, w := range want {
-			f := e.Func(w)
+			f := e.funcByBase(w)
 			okw := f != nil && len(commits) == 1
 			if okw {
 				okw = false
@@ -402,13 +432,13 @@ func runC20(e *Engine, r *Report) {
 		// inside a write batch later operations win: the sweep that deletes the
 		// replica's previous records (which can include a snapshot record at the
 		// imported index) must come before every record the import writes
-		if rm := e.Func("(*internal/logdb.db).saveRemoveNodeData"); rm != nil {
+		if rm := e.funcByBase("(*internal/logdb.db).saveRemoveNodeData"); rm != nil {
 			isRm := func(in ssa.Instruction) bool {
 				c, ok := in.(*ssa.Call)
 				return ok && e.CallsTo(c, rm)
 			}
 			for _, w := range want[1:] {
-				f := e.Func(w)
+				f := e.funcByBase(w)
 				if f == nil {
 					continue
 				}
